@@ -86,9 +86,9 @@ def make_same_object(sid, kind, specs):
             cont.add_file(cf)
             try:
                 got = cont.list_files()
-            except VirtualFileValidationError as e:
+            except Exception as e:  # noqa: BLE001
                 got = None
-                info["read_error"] = str(e)
+                info["read_error"] = "%s: %s" % (type(e).__name__, e)
             if got is None or not F.same_list(got, descs[:i + 1], ml_only_addrs=(kind == "dsk")):
                 ok = False
                 info["failed_after"] = i
@@ -282,6 +282,12 @@ def obligations(tier, seed):
         if full:
             obs.append(make_append("big", kind, [[S("ONE", 4603, "ml"), S("TWO", 510, "ml")], [S("THREE", 765, "ml")], [S("FOUR", 9, "ml")]]))
     for kind in ("cas", "dsk"):
+        if kind == "dsk":
+            # histories whose single allocations walk long stretches of the granule fill order (incl. its repeated entries)
+            obs.append(make_append("walk-13+10", kind, [[S("A", 5000, "ml"), S("B", 9000, "ml"), S("C", 12000, "ml")], [S("D", 21000, "ml")]], allsym=2))
+            obs.append(make_append("walk-27", kind, [[S("A", 60000, "ml")], [S("B", 30, "ml")]], allsym=2))
+            obs.append(make_append("walk-10+14+rest", kind, [[S("A", 21000, "basic", ext="BAS")], [S("B", 30000, "ml"), S("C", 7000, "ascii", ext="TXT")],
+                                                            [S("D", 40000, "ml")]], allsym=1, native=True))
         obs.append(make_same_object("3", kind, [S("ALPHA", 3, "ml"), S("BRAVO", 300, "ml"), S("CHARLIE", 2500, "ml")]))
     import random
     rnd = random.Random(seed + 41)
